@@ -299,6 +299,10 @@ func (o *Origins) compute(v ssa.Value, depth int) *Term {
 		if st := o.singleStore(x); st != nil && !o.hasAnyFieldStore(x) {
 			return o.of(st.Val, depth+1)
 		}
+		// a local built field by field (composite literal): every assigned field is stored exactly once
+		if lit := o.compositeLiteral(x, depth); lit != nil {
+			return lit
+		}
 		return &Term{Op: "call", Name: "addr:" + x.Comment}
 	case *ssa.ChangeType:
 		return o.of(x.X, depth+1)
@@ -971,4 +975,52 @@ func distinctObjects(a, b ssa.Value) bool {
 		return false
 	}
 	return fresh(a) && (named(b) || fresh(b)) || fresh(b) && named(a)
+}
+
+// compositeLiteral: local struct with no whole-variable store whose fields are each assigned at most once:
+// with:F1(with:F2(zero:T(), v2), v1).
+func (o *Origins) compositeLiteral(a *ssa.Alloc, depth int) *Term {
+	if _, ok := derefStruct(a.Type()).Underlying().(*types.Struct); !ok {
+		return nil
+	}
+	if o.countStores(a) != 0 {
+		return nil
+	}
+	type fs struct {
+		f  int
+		st *ssa.Store
+	}
+	var stores []fs
+	for _, r := range *a.Referrers() {
+		fa, ok := r.(*ssa.FieldAddr)
+		if !ok {
+			continue
+		}
+		n := 0
+		for _, rr := range *fa.Referrers() {
+			if st, ok := rr.(*ssa.Store); ok && st.Addr == fa {
+				n++
+				stores = append(stores, fs{fa.Field, st})
+			}
+		}
+		if n > 1 {
+			return nil
+		}
+	}
+	if len(stores) == 0 {
+		return nil
+	}
+	seen := map[int]bool{}
+	for _, s := range stores {
+		if seen[s.f] {
+			return nil
+		}
+		seen[s.f] = true
+	}
+	sort.Slice(stores, func(i, j int) bool { return stores[i].f < stores[j].f })
+	res := &Term{Op: "call", Name: "zero:" + typeName(a.Type())}
+	for _, s := range stores {
+		res = &Term{Op: "call", Name: "with:" + fieldName(a.Type(), s.f), Args: []*Term{res, o.of(s.st.Val, depth+2)}}
+	}
+	return res
 }
